@@ -4,7 +4,8 @@ prefix tables, formatter chunk constants, format constants as inequalities."""
 from .. import absint, ir
 from ..engine import Report
 
-CLOSURE = "crate::string::<impl crate::Uint<BITS, LIMBS>>::from_str_radix::{closure#0}"
+FROM_STR_RADIX = "crate::string::<impl crate::Uint<BITS, LIMBS>>::from_str_radix"
+CLOSURE = FROM_STR_RADIX   # anchor: the function; the digit map is located inside it (closure or helper)
 MAXC = 0x10FFFF
 
 
@@ -22,12 +23,8 @@ def digit_map_body(prog):
                 if o.get("o") == "const" and o.get("c") == "lit" and o.get("ty") == "char":
                     n += 1
         return n
-    cands = [CLOSURE]
-    v = prog.view(CLOSURE)
-    for _bi, t in v.calls():
-        n = ir.callee_name(t["fn"])
-        if n in prog.bodies and prog.bodies[n]["file"] == prog.bodies[CLOSURE]["file"] and n not in cands:
-            cands.append(n)
+    # from_str_radix itself, its closures (whatever their index) and the private helpers of the same file they call
+    cands = [FROM_STR_RADIX] + ir.local_helpers(prog, FROM_STR_RADIX)
     best = max(cands, key=char_consts)
     b = prog.bodies[best]
     cl = rl = None
